@@ -1341,6 +1341,7 @@ class ASTInsertStatement(ASTStatementHasWithClauseBase, abc.ABC):
     columns: Optional[Tuple[ASTColumnNameExpression, ...]] = dataclasses.field(kw_only=True)
 
     def _insert_str(self, sql_type: SQLType) -> str:
+        with_clause_str = self.with_clause.source(sql_type) + "\n\n" if not self.with_clause.is_empty() else ""
         insert_type_str = self.insert_type.source(sql_type)
         table_keyword_str = "TABLE " if sql_type == SQLType.HIVE else ""
         partition_str = f"{self.partition.source(sql_type)} " if self.partition is not None else ""
@@ -1348,7 +1349,7 @@ class ASTInsertStatement(ASTStatementHasWithClauseBase, abc.ABC):
             columns_str = "(" + ", ".join(column.source(sql_type) for column in self.columns) + ") "
         else:
             columns_str = ""
-        return (f"{insert_type_str} {table_keyword_str}{self.table_name.source(sql_type)} "
+        return (f"{with_clause_str}{insert_type_str} {table_keyword_str}{self.table_name.source(sql_type)} "
                 f"{partition_str}{columns_str}")
 
 
